@@ -97,8 +97,19 @@ def r011(prog, chk):
         dcs = [c for c in A.body_nodes(f.node) if isinstance(c, ast.Call) and prog.is_call_to(f, c, "ufo2ft.util.decomposeCompositeGlyph")]
         need(dcs, f"{cname}.filter does not call decomposeCompositeGlyph")
         for c in dcs:
-            restricting = [k.arg for k in c.keywords if k.arg in ("include", "decomposeNested", "reverseFlipped")]
-            chk.ob("R01.1", f"{f.short}|full decomposition", not restricting and len(c.args) == 2, where(f, c), detail="decomposeCompositeGlyph(glyph, glyphSet) with default options",
+            # effective value of each option: what the call passes, else the callee's default
+            callee = ix.get_func("ufo2ft.util:decomposeCompositeGlyph")
+            cparams = callee.params()
+            cargs = callee.node.args
+            defaults = dict(zip(cparams[len(cparams) - len(cargs.defaults):], cargs.defaults))
+            restricting = []
+            for pname, required in (("include", None), ("decomposeNested", True), ("reverseFlipped", True)):
+                need(pname in cparams, f"cannot interpret {callee.short}: no parameter {pname}")
+                given = A.arg_at(c, cparams.index(pname), pname)
+                eff = given if given is not None else defaults.get(pname)
+                if not (isinstance(eff, ast.Constant) and eff.value is required):
+                    restricting.append(pname)
+            chk.ob("R01.1", f"{f.short}|full decomposition", not restricting and len(c.args) >= 2, where(f, c), detail="decomposeCompositeGlyph(glyph, glyphSet): include=None, decomposeNested=True, reverseFlipped=True (given or by default)",
                    message=f"{f.short} restricts the decomposition ({restricting}): nested or selected components stay composite")
         pre = ix.class_attr(ci, "_pre")
         okp = pre is not None and A.is_const(pre[1], True)
@@ -539,6 +550,8 @@ def check_default_filters_kept(prog, chk, rule):
 
 
 MUTANTS = [
+    M("decompose filter passes the default options explicitly", "ufo2ft/filters/decomposeComponents.py", "DecomposeComponentsFilter.filter",
+      "decomposeCompositeGlyph(glyph, self.context.glyphSet)", "decomposeCompositeGlyph(glyph, self.context.glyphSet, reverseFlipped=True, decomposeNested=True)", kind="equiv"),
     M("default filters dropped when a custom pre-filter of the same class and options exists (seeded C01m)", "ufo2ft/preProcessor.py", "BasePreProcessor.__init__",
       "self.defaultFilters = self.initDefaultFilters(**kwargs)",
       "self.defaultFilters = [f for f in self.initDefaultFilters(**kwargs) if not any((type(p) is type(f) and p.options == f.options for p in self.preFilters))]", rule="R01.14"),
